@@ -21,6 +21,9 @@ Init == \/ \E v \in IdVariants : sh = [id |-> v, fields |-> <<>>]
         \* two relationship fields in both orders (the second one must not inherit anything from the first)
         \/ \E g1 \in {"string", "[]string"}, g2 \in {"string", "[]string"}, a1 \in {"rel,tt", "rel,tt,inv"}, a2 \in {"rel,tt", "attr"} :
               sh = [id |-> "ok", fields |-> <<F(g1, "a", a1), F(g2, "b", a2)>>]
+        \* two tagged fields with the same json name, of the same or of different kinds, in both orders
+        \/ \E a1 \in {"attr", "rel,tt"}, a2 \in {"attr", "rel,tt"}, g1 \in {"string", "*int"}, g2 \in {"string", "[]string"} :
+              sh = [id |-> "ok", fields |-> <<F(g1, "a", a1), F(g2, "a", a2)>>]
         \/ (Pairs /\ \E f \in FieldSpecs, g \in FieldSpecs :
               (f.api # "" /\ g.api # "" /\ f.json \in {"a", ""} /\ g.gotype \in {"string", "[]string", "*int"}) /\
               sh = [id |-> "ok", fields |-> <<f, g>>])
